@@ -606,8 +606,13 @@ def _q_hq(reg, c):
         obj = reg.get(root["kind"], root["id"])
     elif root["t"] == "S":
         obj = [reg.get(root["kind"], x) for x in root["ids"]]
+    elif root["t"] == "M":
+        obj = [reg.get("N", root["id"]), reg.get(root["kind"], root["x"])]
     else:
-        obj = _href_from_path(reg, root["h"])
+        held = getattr(reg, "held", None) or {}
+        obj = held.get(json.dumps(root["h"]))      # the very reference handed out earlier, if the walk holds it
+        if obj is None:
+            obj = _href_from_path(reg, root["h"])
     kw = {}
     if c.get("sel", "DEFAULT") in ("ALL", "INSIDE", "OUTSIDE", "BOTH"):
         kw["selection"] = c["sel"]
@@ -1084,6 +1089,8 @@ def mutate_text(fmt, text, kind, idx):
             toks.insert(pos, toks[pos])
         elif kind == "repl":
             toks[pos] = "zz9"
+        elif kind == "illegal":
+            toks[pos] = "q-x"          # not a legal identifier in any of the formats' naming rules
     sep = " " if fmt != "eblif" else " "
     return sep.join(toks) + "\n", n
 
@@ -1130,6 +1137,26 @@ def _x_parse_text(reg, c):
         if os.path.exists(path):
             os.unlink(path)
     extra["policy_after"] = _val(sdn.namespace_manager.default)
+    # the same text handed to the reader a second time in the same process must meet the same fate
+    if extra["parse"] != "timeout":
+        sdn.namespace_manager.default = pol
+        path2 = _tmpfile({"edif": ".edf", "verilog": ".v", "eblif": ".eblif"}[fmt])
+        try:
+            with open(path2, "w") as f:
+                f.write(text)
+            try:
+                sdn.parse(path2)
+                extra["parse2"] = "ok"
+            except CallTimeout:
+                extra["parse2"] = "timeout"
+            except BaseException as e:
+                extra["parse2"] = "raised"
+                extra["raised2"] = type(e).__name__
+        finally:
+            if os.path.exists(path2):
+                os.unlink(path2)
+        if _val(sdn.namespace_manager.default) != pol and extra["policy_after"] == extra["policy_before"]:
+            extra["policy_after"] = _val(sdn.namespace_manager.default)
     if extra["policy_after"] == extra["policy_before"]:
         sdn.namespace_manager.default = "DEFAULT"     # the probe's reference behaviour was taken under DEFAULT
     extra["probe_same"] = (_probe() == _PROBE_BASE[0])
@@ -1208,15 +1235,30 @@ def execute(reg, c):
 
 import random as _random  # noqa: E402
 ACTIVE_LISTENERS = []
+LISTENER_ERRORS = []
 PAD_COUNTER = [0]
 
 
 def fresh(listeners=""):
     """fresh process-wide state for a new behaviour.  listeners: "" (none), "A" (the mirror),
-    "AB" / "BA" (mirror and a passive listener registered in that order)"""
+    "AB" / "BA" (mirror and a passive listener registered in that order), "C" / "D" / "S" (partial listeners
+    that override only wire_connect_pin / only wire_disconnect_pin / only dictionary_set)"""
     sdn.namespace_manager.default = "DEFAULT"
     while ACTIVE_LISTENERS:
-        ACTIVE_LISTENERS.pop().deregister_all_listeners()
+        lst = ACTIVE_LISTENERS.pop()
+        try:
+            lst.deregister_all_listeners()
+        except Exception as e:       # removing a listener must never fail: recorded as an observation (C19_Transparent)
+            LISTENER_ERRORS.append("deregister_all_listeners of %s raised %s" % (type(lst).__name__, type(e).__name__))
+            from spydrnet.global_state import global_callback as _gc
+            for nm in dir(_gc):
+                if nm.startswith("_container_"):
+                    cont = getattr(_gc, nm)
+                    for m in [m for m in list(cont) if getattr(m, "__self__", None) is lst]:
+                        try:
+                            cont.remove(m)
+                        except Exception:
+                            pass
     reg = Registry()
     reg.mirror = None
     # vary the memory layout from one behaviour to the next: code that iterates Python sets of elements
@@ -1229,6 +1271,12 @@ def fresh(listeners=""):
             if ch == "A":
                 reg.mirror = mirror.MirrorListener()
                 ACTIVE_LISTENERS.append(reg.mirror)
+            elif ch == "C":
+                ACTIVE_LISTENERS.append(mirror.ConnectOnlyListener())
+            elif ch == "D":
+                ACTIVE_LISTENERS.append(mirror.DisconnectOnlyListener())
+            elif ch == "S":
+                ACTIVE_LISTENERS.append(mirror.DataOnlyListener())
             else:
                 ACTIVE_LISTENERS.append(mirror.PassiveListener())
     return reg
